@@ -1512,8 +1512,13 @@ def _t1_encoder(ctx: Context):
     ck.check(R, a["tid"] == idx_t, "encode_all_pdus: the tid of each request is the enumerate index of its item",
              f"{ctx.fkey(f)}:tid-is-index", f"encode_all_pdus: tid is {show(a['tid'], 60)}, not the enumerate index {show(idx_t, 30)}", ctx.loc(f, r))
     src = it[2][0]
+    def part(i):  # the i-th part of the zipped item: indexed, or unpacked in the loop target `idx, (iid, body)`
+        if item_t[0] == "tuple" and len(item_t[1]) == 2:
+            return item_t[1][i]
+        return ("sub", item_t, ("const", i))
+
     okz = (_is_call_to(src, "zip") and len(src[2]) == 2 and src[2][0][0] == "param" and src[2][1][0] == "param" and src[2][0] != src[2][1]
-           and a["iid"] == ("sub", item_t, ("const", 0)) and ps[1] == ("sub", item_t, ("const", 1)) and _is_len_of(a["body_length"], ps[1]))
+           and a["iid"] == part(0) and ps[1] == part(1) and _is_len_of(a["body_length"], ps[1]))
     ck.check(R, okz, "encode_all_pdus: item i carries iids[i], data[i] and len(data[i]) (zip of the two parameters)",
              f"{ctx.fkey(f)}:zip", f"encode_all_pdus: item is built from {show(src, 60)}: iid {show(a['iid'], 40)}, body {show(ps[1], 40)}, length {show(a['body_length'], 40)}", ctx.loc(f, r))
     c0 = _ci(a["control"])
@@ -1857,7 +1862,10 @@ def _t2(ctx: Context) -> None:
                 # success entry of a read: the value must come from this result
                 vs = [v for k, v in val[1] if k == ("const", "value")] if val[0] == "dict" else []
                 for v in vs:
-                    srcs_ok = all(contains(a, lambda s: s == RESULT) or contains(a, lambda s: s == KEYBASE) for a in _alts(v))
+                    al = _alts(v)
+                    from_result = [a for a in al if contains(a, lambda s: s == RESULT) or contains(a, lambda s: s == KEYBASE)]
+                    # a constant empty value next to decoded ones is the `empty result` case of a conditional assignment
+                    srcs_ok = bool(from_result) and all(a in from_result or a in (("const", b""), ("const", None)) for a in al)
                     ck.check(R, srcs_ok, f"{f.name}: the value stored for ids[i] is decoded from result i", f"{ctx.fkey(f)}:value-source",
                              f"{f.name}: the stored value {show(v, 100)} does not come from the i-th result", ctx.loc(f, n))
         # an error item is always recorded
